@@ -3,7 +3,7 @@ Spec: Amplifier.tla (gain lattice model, replayed), Units.tla (ASE monomial, dim
 import random, math, warnings
 import numpy as np
 from scipy.constants import h as H_PLANCK
-from ..core import deadline, import_repo
+from ..core import deadline, import_repo, fresh_repo
 from ..behav import parse_ev
 from ..rng_tap import tap, explain
 
@@ -126,9 +126,15 @@ def run(ctx):
         np.random.seed(1000 + it)
         one(s if npol == 2 else s[0], None if nz is None else (nz if npol == 2 else nz[0]), G, NF, ("random", npol, noisy, round(G)), dtype_k=1 if it % 4 == 0 else 0)
         ctx.case(("random", npol, noisy, int(G) // 10, it % 4 == 0, n > 100))
-        if it % 5 == 0 and n >= 256:
+        if it % 9 == 1 and npol == 2 and noisy:
+            # a two-polarisation input whose y signal is empty but whose y noise is not (e.g. the output of a previous EDFA)
+            s2 = s.copy(); s2[1] = 0
+            np.random.seed(2000 + it)
+            one(s2, nz, G, NF, ("random-empty-y", npol, noisy, round(G)))
+            ctx.case(("random-empty-y", int(G) // 10))
+        if it % 3 == 0 and n >= 256:
             x = optical_signal(s if npol == 2 else s[0], None if nz is None else (nz if npol == 2 else nz[0]))
-            BW = 0.2 * gv.fs
+            BW = [0.2, 0.5, 0.7, 0.95][(it // 3) % 4] * gv.fs
             np.random.seed(5)
             a = EDFA(x, G, NF, BW)
             np.random.seed(5)
@@ -136,6 +142,22 @@ def run(ctx):
             events.append({"kind": "bw", "ppt": max(rel(a.signal + 1, b.signal + 1), rel(a.noise + 1, b.noise + 1))})
             meta.append(("bw", npol))
             ctx.case(("bw", npol, noisy))
+    # history independence: the ASE of a call may only depend on its arguments, the CURRENT gv and the RNG state.  The same call
+    # is made after a different configuration, and by a freshly imported library instance that has seen nothing else.
+    for it, (cfgA, cfgB) in enumerate([(dict(sps=16, R=1e9, wavelength=1550e-9), dict(sps=16, R=1e9, wavelength=1310e-9)),
+                                       (dict(sps=8, R=10e9), dict(sps=16, R=10e9)), (dict(sps=8, R=2.5e9, wavelength=1064e-9), dict(sps=8, R=5e9, wavelength=1064e-9))]):
+        xs = np.full(64, 0.01 + 0.02j)
+        with warnings.catch_warnings():
+            warnings.simplefilter("ignore")
+            gv(**cfgA); np.random.seed(3); EDFA(optical_signal(xs), 20, 5, 0.3 * gv.fs)
+            gv(**cfgB); np.random.seed(3); after = EDFA(optical_signal(xs), 20, 5, 0.3 * gv.fs)
+            bw_used = 0.3 * gv.fs
+            with fresh_repo() as lib:
+                lib["typing"].gv(**cfgB); np.random.seed(3)
+                fresh = lib["devices"].EDFA(lib["typing"].optical_signal(xs), 20, 5, bw_used)
+        events.append({"kind": "bw", "ppt": max(rel(after.signal + 1, fresh.signal + 1), rel(after.noise * 1e6 + 1, fresh.noise * 1e6 + 1))})
+        meta.append(("history-independent", it))
+        ctx.case(("history", it))
     for bad in (electrical_signal([1.0, 2.0]), np.ones(4), [1, 2, 3]):
         try:
             EDFA(bad, 10, 5)
